@@ -30,8 +30,9 @@ def concretize(x, lo, hi):
     return hi
 
 
-@harness(instances=lambda tier: [{"form": f} for f in ("start", "start_stop", "start_stop_step")],
-         start=I(-4, 4), stop=I(-4, 4), step=I(-4, 4), timeout=(90, 600))
+@harness(instances=lambda tier: [dict({"form": f}, **({} if tier == "quick" else {"W": 7})) for f in ("start", "start_stop", "start_stop_step")],
+         start=I(lambda i: -i.get("W", 4), lambda i: i.get("W", 4)), stop=I(lambda i: -i.get("W", 4), lambda i: i.get("W", 4)),
+         step=I(lambda i: -i.get("W", 4), lambda i: i.get("W", 4)), timeout=(90, 600))
 def h_range(a, inst):
     if inst["form"] == "start":
         n = concretize(a.start, -4, 4)
@@ -51,7 +52,7 @@ def h_range(a, inst):
 
 
 @harness(instances=lambda tier: [{"fn": f, "N": n} for f in ("of", "from_iterable", "from_", "from_iterable_gen", "repeat_value", "return_value",
-                                                              "empty", "never", "throw") for n in ((0, 1, 2, 3) if f in ("of", "from_iterable", "from_", "from_iterable_gen", "repeat_value") else (0,))],
+                                                              "empty", "never", "throw") for n in (((0, 1, 2, 3) if tier == "quick" else (0, 1, 2, 3, 4, 5)) if f in ("of", "from_iterable", "from_", "from_iterable_gen", "repeat_value") else (0,))],
          v=I(-2, 2, n=lambda i: max(i["N"], 1)), timeout=(60, 300))
 def h_simple(a, inst):
     n = inst["N"]
@@ -137,7 +138,7 @@ ENCODED = ["reactivex/observable/range.py", "reactivex/observable/fromiterable.p
 BOUNDS = {"quick": "range arguments in [-4,4] in all three call forms; iterables of 0..3 ints in [-2,2] (lists, tuples, generators); "
                    "generate with init in [0,2], condition x < th (th in [0,4]), step 1..2; relative delays da*x+db with da, db in [0,2] "
                    "(zero included) as ints and as span objects; timer(d) d in [0,5]; timer(d, period) and interval(period), period 1..3",
-          "thorough": "same with the thorough budget"}
+          "thorough": "range arguments in [-7,7]; iterables of 0..5 items; the rest as in the quick tier"}
 ASSUMES = ["Tick/Span time stub (Span stands in for timedelta delays)", "range arguments are realised by branching (range() needs concrete ints)"]
 MANIFEST = {
     "text": "Bounded symbolic model checking: factory arguments and loop/delay function parameters are solver variables; the recorded "
